@@ -3,6 +3,7 @@ package c11
 
 import (
 	"bytes"
+	"encoding/json"
 	"fmt"
 	"os"
 	"path/filepath"
@@ -23,7 +24,89 @@ func init() {
 		Id: "C11", Lvl: "exploration", Quick: 220, Thorough: 6000, PerBatch: 55, Width: 55, Timeout: 2400,
 		RuleText: "each case is a history of 20-40 file-management requests through the real connection loop on a generated tree (names over ASCII and Mac-Roman high bytes incl. names that merely contain '.incomplete', spaces, 1..60 bytes; not starting with '.' or '@'): rename, move, delete, new folder (also onto an existing name), alias, set-comment on files and folders (an eighth of the comments 4-9 KB long), upload started and cut (partial file), move/rename attempts on a partial by its listed name, and moves of a file into a folder where a folder of the same name is in the way (nothing may change); destination names never collide. In a quarter of the cases operator-configured ignore patterns are in force and matching files lie in every folder (never listed, never counted). After every step a reference namespace model is compared with: the file list of every folder (exactly the model's entries, partials under their final name, folder item counts, sizes), get-info and the download reply of every complete file (size and type agree with the list and with the bytes on disk; comment), and the directory contents (side files .info_/.rsrc_/.incomplete travel or vanish with their file, no orphans). distinct = multiset of operation kinds; non-trivial = history has a rename/move/delete of a file that owns a side file or a partial",
 		Case:     runCase,
+		Extra: func(tier string, seed int64) []core.Batch {
+			sizes := []int{33000}
+			if tier == "thorough" {
+				sizes = []int{257, 32767, 32768, 40000, 65535}
+			}
+			a, _ := json.Marshal(map[string][]int{"sizes": sizes})
+			return []core.Batch{{Name: "big-folder", Args: a, Timeout: 1800}}
+		},
+		RunExtra: runBigFolder,
 	})
+}
+
+// runBigFolder: a folder with tens of thousands of entries (still within what one reply's 16-bit field count can
+// announce) must be listed completely, every entry once.
+func runBigFolder(b core.Batch, em *core.Emitter) {
+	var a struct {
+		Sizes []int `json:"sizes"`
+	}
+	json.Unmarshal(b.Args, &a)
+	for _, n := range a.Sizes {
+		id := fmt.Sprintf("C11/big-folder/%d", n)
+		core.SafeCase(em, id, func() {
+			em.Begin(id, nil)
+			srv, err := fixture.New(fixture.Options{Files: func(root string) {
+				os.MkdirAll(filepath.Join(root, "big"), 0755)
+				for i := 0; i < n; i++ {
+					os.WriteFile(filepath.Join(root, "big", fmt.Sprintf("f%05d", i)), nil, 0644)
+				}
+			}})
+			if err != nil {
+				em.Emit(core.Result{Case: id, Verdict: core.Inconclusive, Msg: err.Error()})
+				return
+			}
+			defer srv.Close()
+			cl, err := refclient.LoginAs(srv, "10.11.9.1:1", "admin", "", "Lister")
+			if err != nil {
+				em.Emit(core.Result{Case: id, Verdict: core.Inconclusive, Msg: err.Error()})
+				return
+			}
+			obs := map[string]int{"entries_in_the_folder": n}
+			rep, ok := cl.Call(200, rc.F(202, rc.PathS("big")))
+			if !ok || rep.Err != 0 {
+				why := cl.LastWhy
+				v := core.Violated
+				if strings.HasPrefix(why, "watchdog") {
+					v = core.Inconclusive
+				}
+				em.Emit(core.Result{Case: id, Class: "big-folder", Verdict: v, Key: "C11/big-folder/list-failed", Msg: fmt.Sprintf("file list of a folder with %d entries failed: %v (%s)", n, rep, why), Obs: obs})
+				return
+			}
+			seen := map[string]bool{}
+			for _, d := range rep.GetAll(200) {
+				fe, err := rc.DecodeFileEntry(d)
+				if err != nil {
+					em.Emit(core.Result{Case: id, Class: "big-folder", Verdict: core.Violated, Key: "C11/big-folder/unparseable", Msg: fmt.Sprintf("folder with %d entries: list record does not decode: %v", n, err), Obs: obs})
+					return
+				}
+				seen[string(fe.Name)] = true
+			}
+			obs["entries_listed"] = len(seen)
+			missing := 0
+			first := ""
+			for i := 0; i < n; i++ {
+				if nm := fmt.Sprintf("f%05d", i); !seen[nm] {
+					if missing == 0 {
+						first = nm
+					}
+					missing++
+				}
+			}
+			if missing > 0 || len(seen) != n {
+				em.Emit(core.Result{Case: id, Class: "big-folder", Verdict: core.Violated, Key: "C11/big-folder/list-incomplete", Msg: fmt.Sprintf("folder with %d entries: the list shows %d distinct names, %d entries are missing (first: %s)", n, len(seen), missing, first), Obs: obs})
+				return
+			}
+			// a listed entry can be addressed by its listed name
+			last := fmt.Sprintf("f%05d", n-1)
+			if info, ok := cl.Call(206, rc.FS(201, last), rc.F(202, rc.PathS("big"))); !ok || info.Err != 0 {
+				em.Emit(core.Result{Case: id, Class: "big-folder", Verdict: core.Violated, Key: "C11/big-folder/info-failed", Msg: fmt.Sprintf("get-info on listed entry %s failed: %v", last, info), Obs: obs})
+				return
+			}
+			em.Emit(core.Result{Case: id, Class: fmt.Sprintf("big-folder/%d", n), Verdict: core.Held, Obs: obs, Sample: map[string]any{"entries": n, "listed": len(seen)}})
+		})
+	}
 }
 
 type ent struct {
